@@ -88,7 +88,9 @@ def run_fit(p):
         g0 = torch.Generator().manual_seed(p['seed'] + 11)
         X0 = torch.randn(X.shape, generator=g0, dtype=X.dtype)
         y0 = torch.tanh(X0[:, :1] * 2.0).expand(-1, y.shape[1]).contiguous() + 0.05 * torch.randn(y.shape, generator=g0, dtype=y.dtype)
-        model.fit((X0, y0), (Xv, yv), iters=max(1, p['iters']), reg=p['reg'], verbose=False, early_stop_rfm=False)
+        # ... possibly with per-call options of its own (a small AGOP sampling budget): they belong to that call only
+        model.fit((X0, y0), (Xv, yv), iters=max(1, p['iters']), reg=p['reg'], verbose=False, early_stop_rfm=False,
+                  **({'total_points_to_sample': 5} if p['seed'] % 2 else {}))
     rec = AgopRec(model)
     Ms = model.fit((X, y), (Xv, yv), iters=p['iters'], reg=p['reg'], verbose=False, center_grads=p['center'],
                    M_batch_size=p['batch'], return_Ms=True, get_agop_best_model=True,
